@@ -302,7 +302,7 @@ Proof. induction 1 as [|b l [H1 H2] _ [I1 I2]]; split; constructor; assumption. 
 Lemma col_of_arg_cells f a c :
   arg_good f a -> col_of_arg f a = Some c -> ecol c = map erase (arg_cells a).
 Proof.
-  destruct f as [k|ks], a as [l|cols]; simpl; intros Hg H; try contradiction.
+  destruct f as [k|ks], a as [l|cols|v|v]; simpl; intros Hg H; try contradiction.
   - destruct (bcol_of_cells k l) as [b|] eqn:E; [|discriminate]. injection H as <-.
     destruct (Forall_mb_good _ _ Hg) as [G1 G2]. unfold bcol_of_cells in E.
     destruct (column_roundtrip _ _ _ _ _ E G1 G2) as [R1 _].
